@@ -30,6 +30,7 @@ type Obligation struct {
 	Skolems []*smt.Term
 	LiveArrs []*smt.Term // versioned arrays occurring in the state at the obligation
 	Inputs  []NamedTerm // replay inputs: named terms over the entry state
+	unfolded bool
 }
 
 type NamedTerm struct {
@@ -640,14 +641,25 @@ func (e *Engine) binop(st *State, op token.Token, x, y Value, xt, yt types.Type,
 	}
 	if a.Sort == smt.Str {
 		if op == token.ADD {
-			la, oka := e.litOf(a)
-			lb, okb := e.litOf(b)
-			if oka && okb {
-				return e.strLit(la + lb)
+			var cat func(a, b *smt.Term, depth int) *smt.Term
+			cat = func(a, b *smt.Term, depth int) *smt.Term {
+				la, oka := e.litOf(a)
+				lb, okb := e.litOf(b)
+				if oka && okb {
+					return e.strLit(la + lb)
+				}
+				// concatenation distributes over the choice between literals (merged branches)
+				if a.Op == smt.OIte && depth < 6 {
+					return c.Ite(a.Args[0], cat(a.Args[1], b, depth+1), cat(a.Args[2], b, depth+1))
+				}
+				if b.Op == smt.OIte && depth < 6 {
+					return c.Ite(b.Args[0], cat(a, b.Args[1], depth+1), cat(a, b.Args[2], depth+1))
+				}
+				r := c.App("sconcat", smt.Str, a, b)
+				st.Assume(c.Eq(e.slen(r), c.Add(e.slen(a), e.slen(b))))
+				return r
 			}
-			r := c.App("sconcat", smt.Str, a, b)
-			st.Assume(c.Eq(e.slen(r), c.Add(e.slen(a), e.slen(b))))
-			return r
+			return cat(a, b, 0)
 		}
 		e.fail("string binop %s at %s", op, pos)
 	}
